@@ -75,9 +75,9 @@ def tlc_jobs(ctx, acc):
     for dev, prop, extra in DEVS:
         mc("mc-dev-" + dev, [prop], timeout=600, Dev='"%s"' % dev, **extra)
     if th:
-        mc("mc-ideal-3groups", INVS, timeout=1500, CTtl=2, Groups='{"g1", "g2", "g3"}')
-        mc("mc-asfound-send", ["TypeOK", "P_X04_a", "P_X04_d", "P_X04_e", "P_X04_f"], timeout=1500, ResetOnClose=True, StaleDec=True, KeepEntries=True,
-           Groups='{"g1"}', Parts="{0, 1}", Acts=ALL_ACTS, Peers='{"p1", "p2", "p3"}', CLimT=1)
+        mc("mc-ideal-3groups", INVS, timeout=900, CTtl=2, Groups='{"g1", "g2", "g3"}')
+        mc("mc-asfound-send", ["TypeOK", "P_X04_a", "P_X04_d", "P_X04_e", "P_X04_f"], timeout=900, ResetOnClose=True, StaleDec=True, KeepEntries=True,
+           Groups='{"g1"}', Parts="{0, 1}", Acts=ALL_ACTS, CLimT=1)
     node_tlc_jobs(ctx, jobs)
 
     # generators: call sequences of the object
